@@ -5,15 +5,19 @@ package c14
 
 import (
 	"bytes"
+	"compress/flate"
 	"encoding/base64"
 	"encoding/xml"
 	"fmt"
 	"net/http"
 	"net/http/httptest"
 	"net/url"
+	"os"
 	"reflect"
+	"strconv"
 	"strings"
 	"testing"
+	"time"
 	"unicode/utf8"
 
 	"github.com/beevik/etree"
@@ -35,7 +39,7 @@ import (
 
 // Case is a tagged union: one emitted form, or one metadata document.
 type Case struct {
-	Kind string `json:"kind"` // spform | mwpage | idpform | loginform | metadata
+	Kind string `json:"kind"` // spform | mwpage | idpform | idpflow | loginform | metadata
 
 	// forms
 	Form    string `json:"form,omitempty"`    // spform: authn | logoutreq | logoutresp ; loginform: get | badlogin
@@ -46,9 +50,26 @@ type Case struct {
 	// descriptor that has it (the action must still be the configured POST endpoint).
 	Lead int `json:"lead,omitempty"`
 
+	// idpflow: the IdP is driven through its HTTP handlers with service-provider metadata that was
+	// built in code (it never saw the metadata parser's scheme check).  URL is the Location of the
+	// target endpoint ACS[Target] (its Loc field is ignored); Select says how the request names it.
+	Select string    `json:"select,omitempty"` // url | index | index+url | missing-index+url | none | idp-initiated | url-mismatch
+	Via    string    `json:"via,omitempty"`    // post | redirect (how the AuthnRequest reaches ServeSSO)
+	Signed bool      `json:"signed,omitempty"` // true: the library's own DefaultAssertionMaker + signing; false: a stub maker that sets ResponseEl from Content
+	ACS    []ACSSpec `json:"acs,omitempty"`
+	Target int       `json:"target,omitempty"`
+
 	// metadata
 	Doc   string   `json:"doc,omitempty"`
 	Notes []string `json:"notes,omitempty"` // generator's labels (histogram only; never used by the oracle)
+}
+
+// ACSSpec is one AssertionConsumerService of the in-code service-provider metadata.
+type ACSSpec struct {
+	Binding string `json:"binding"`
+	Loc     string `json:"loc,omitempty"`
+	Index   int    `json:"index"`
+	Default int    `json:"default,omitempty"` // 0 absent, 1 true, 2 false
 }
 
 // ---------------------------------------------------------------- generators: hostile strings
@@ -329,8 +350,47 @@ func genMetadata(t *rapid.T) Case {
 	return c
 }
 
+var idpSelects = []string{"url", "index", "index+url", "missing-index+url", "none", "idp-initiated", "url-mismatch"}
+
+// genIdpFlow: in-code SP metadata with 1-3 assertion consumer services (distinct indices), one of
+// which - the target - carries the generated (hostile) location; crossed with the way the request
+// names the endpoint.  Decoys are benign or listed-hostile.
+func genIdpFlow(t *rapid.T) Case {
+	c := Case{Kind: "idpflow", URL: genURL(t, "url"), Relay: genHostile(t, "relay"), Content: xgen.Text().Draw(t, "content")}
+	// weights: the by-URL modes are the ones in which a request string and a registered string meet
+	c.Select = rapid.SampledFrom([]string{"url", "url", "url", "index", "index", "index+url", "missing-index+url", "none", "none", "idp-initiated", "idp-initiated", "url-mismatch"}).Draw(t, "select")
+	c.Via = rapid.SampledFrom([]string{"post", "post", "redirect"}).Draw(t, "via")
+	c.Signed = rapid.IntRange(0, 3).Draw(t, "signed") == 0
+	n := rapid.IntRange(1, 3).Draw(t, "nacs")
+	c.Target = rapid.IntRange(0, n-1).Draw(t, "target")
+	base := rapid.IntRange(0, 3).Draw(t, "idxbase")
+	for i := 0; i < n; i++ {
+		l := fmt.Sprintf("acs%d", i)
+		a := ACSSpec{Binding: saml.HTTPPostBinding, Index: base + i}
+		if i == c.Target {
+			// the target is a POST endpoint nearly always (another binding: the IdP must refuse or pick another)
+			if rapid.IntRange(0, 9).Draw(t, l+"tb") == 0 {
+				a.Binding = rapid.SampledFrom([]string{saml.HTTPRedirectBinding, saml.HTTPArtifactBinding}).Draw(t, l+"binding")
+			}
+			a.Default = rapid.SampledFrom([]int{0, 1, 1, 2}).Draw(t, l+"default")
+		} else {
+			a.Binding = rapid.SampledFrom([]string{saml.HTTPPostBinding, saml.HTTPPostBinding, saml.HTTPRedirectBinding, saml.HTTPArtifactBinding}).Draw(t, l+"binding")
+			a.Default = rapid.SampledFrom([]int{0, 0, 2, 1}).Draw(t, l+"default")
+			if rapid.IntRange(0, 2).Draw(t, l+"hostile") == 0 {
+				a.Loc = rapid.SampledFrom(hostileURLs).Draw(t, l+"loc")
+			} else {
+				a.Loc = fmt.Sprintf("https://sp.example.com/decoy/%d", i)
+			}
+		}
+		c.ACS = append(c.ACS, a)
+	}
+	return c
+}
+
 func gen(t *rapid.T) Case {
-	switch rapid.IntRange(0, 9).Draw(t, "kind") {
+	switch rapid.IntRange(0, 10).Draw(t, "kind") {
+	case 10:
+		return genIdpFlow(t)
 	case 0, 1:
 		return Case{Kind: "spform", Form: rapid.SampledFrom([]string{"authn", "logoutreq", "logoutresp"}).Draw(t, "form"), URL: genURL(t, "url"), Relay: genHostile(t, "relay"), Content: xgen.Text().Draw(t, "content")}
 	case 2:
@@ -386,7 +446,10 @@ type page struct {
 	body []byte
 	// slots as the emitter was given them
 	action string
-	relay  string
+	// actions (idpflow): the registered locations any of which the form may legitimately post to
+	// (exactly one when the request names the endpoint; every registered one when the choice is the IdP's)
+	actions []string
+	relay   string
 	// payload: name of the hidden payload field and, when the harness knows it, its exact expected value
 	payloadName string
 	payloadWant *string
@@ -448,6 +511,50 @@ func emit(c Case, u, relay, content string) (p page, pan any) {
 		w := httptest.NewRecorder()
 		p.err = req.WriteResponse(w)
 		p.body = w.Body.Bytes()
+	case "idpflow":
+		p.payloadName = "SAMLResponse"
+		if c.Target < 0 || c.Target >= len(c.ACS) {
+			p.err = fmt.Errorf("harness: target out of range")
+			return
+		}
+		md, locs := spMetadataInCode(c, u)
+		k := fix.Get("idp")
+		idp := &saml.IdentityProvider{Key: k.Key, Certificate: k.Cert, Logger: quiet{}, MetadataURL: mustURL("https://idp.example.org/metadata"), SSOURL: mustURL("https://idp.example.org/sso"),
+			ServiceProviderProvider: oneSP{md}, SessionProvider: fixedSession{}}
+		if !c.Signed {
+			idp.AssertionMaker = stubMaker{content}
+		}
+		w := httptest.NewRecorder()
+		tgt := c.ACS[c.Target]
+		switch c.Select {
+		case "idp-initiated":
+			p.actions = locs
+			idp.ServeIDPInitiated(w, httptest.NewRequest("GET", "https://idp.example.org/login/sp", nil), spEntityID, relay)
+		default:
+			var acsURL, acsIndex string
+			switch c.Select {
+			case "url":
+				acsURL, p.actions = u, []string{u}
+				if u == "" { // an empty attribute names nothing: the choice is the IdP's
+					p.actions = locs
+				}
+			case "index":
+				acsIndex, p.actions = strconv.Itoa(tgt.Index), []string{u}
+			case "index+url":
+				acsURL, acsIndex, p.actions = u, strconv.Itoa(tgt.Index), []string{u}
+			case "missing-index+url": // an index no endpoint has: refusing is fine, so is falling back to the URL
+				acsURL, acsIndex, p.actions = u, "77", []string{u}
+			case "url-mismatch": // names no registered location: whatever the IdP does, it may only post to a registered one
+				acsURL, p.actions = u+"/unregistered", locs
+			default: // none: the choice is the IdP's
+				p.actions = locs
+			}
+			idp.ServeSSO(w, ssoRequest(c.Via, authnRequestXML(acsURL, acsIndex), relay))
+		}
+		if w.Code != 200 {
+			p.err = fmt.Errorf("status %d", w.Code)
+		}
+		p.body = w.Body.Bytes()
 	case "loginform":
 		p.payloadName = "SAMLRequest"
 		k := fix.Get("idp")
@@ -481,6 +588,102 @@ func emit(c Case, u, relay, content string) (p page, pan any) {
 		p.body = w.Body.Bytes()
 	}
 	return p, nil
+}
+
+const (
+	benignURL  = "https://benign.example/endpoint"
+	spEntityID = "https://sp.example.com/saml/metadata"
+)
+
+// spMetadataInCode builds the service-provider metadata as a Go value (as a JSON store or a
+// programmatic registration would): nothing in it went through the metadata XML parser.  The
+// target endpoint gets the location u; for the benign baseline the decoys are benign too.
+func spMetadataInCode(c Case, u string) (*saml.EntityDescriptor, []string) {
+	var eps []saml.IndexedEndpoint
+	var locs []string
+	for i, a := range c.ACS {
+		loc := a.Loc
+		if i == c.Target {
+			loc = u
+		} else if u == benignURL {
+			loc = fmt.Sprintf("https://benign.example/decoy/%d", i)
+		}
+		ep := saml.IndexedEndpoint{Binding: a.Binding, Location: loc, Index: a.Index}
+		switch a.Default {
+		case 1:
+			yes := true
+			ep.IsDefault = &yes
+		case 2:
+			no := false
+			ep.IsDefault = &no
+		}
+		eps = append(eps, ep)
+		locs = append(locs, loc)
+	}
+	return &saml.EntityDescriptor{EntityID: spEntityID, SPSSODescriptors: []saml.SPSSODescriptor{{AssertionConsumerServices: eps}}}, locs
+}
+
+type oneSP struct{ md *saml.EntityDescriptor }
+
+func (o oneSP) GetServiceProvider(_ *http.Request, id string) (*saml.EntityDescriptor, error) {
+	if id != o.md.EntityID {
+		return nil, os.ErrNotExist
+	}
+	return o.md, nil
+}
+
+type fixedSession struct{}
+
+func (fixedSession) GetSession(http.ResponseWriter, *http.Request, *saml.IdpAuthnRequest) *saml.Session {
+	return &saml.Session{ID: "session-1", CreateTime: fix.Epoch, ExpireTime: fix.Epoch.Add(time.Hour), Index: "1", NameID: "user@example.com", UserName: "user", UserEmail: "user@example.com"}
+}
+
+// stubMaker stands in for the assertion maker (a documented extension point): the response
+// element is a small fixed one carrying the content string, nothing is signed.
+type stubMaker struct{ content string }
+
+func (s stubMaker) MakeAssertion(req *saml.IdpAuthnRequest, _ *saml.Session) error {
+	el := etree.NewElement("samlp:Response")
+	el.CreateAttr("xmlns:samlp", samlwire.NSProtocol)
+	el.CreateAttr("ID", "id-r")
+	el.SetText(s.content)
+	req.ResponseEl = el
+	return nil
+}
+
+// reqAttr writes an attribute value of the AuthnRequest: like attrEscape, and '>' as a reference
+// too (a literal "]]>" in an attribute value is refused by encoding/xml).
+func reqAttr(v string) string { return strings.ReplaceAll(attrEscape(v), ">", "&gt;") }
+
+// authnRequestXML is written by the harness itself so that TAB / LF / CR in the named URL reach the
+// IdP as those characters (character references) instead of being normalised to spaces.
+func authnRequestXML(acsURL, acsIndex string) []byte {
+	var b strings.Builder
+	fmt.Fprintf(&b, `<samlp:AuthnRequest xmlns:samlp="urn:oasis:names:tc:SAML:2.0:protocol" xmlns:saml="urn:oasis:names:tc:SAML:2.0:assertion" ID="id-req-1" Version="2.0" IssueInstant="%s"`, fix.Epoch.UTC().Format("2006-01-02T15:04:05Z"))
+	if acsURL != "" {
+		fmt.Fprintf(&b, ` AssertionConsumerServiceURL="%s"`, reqAttr(acsURL))
+	}
+	if acsIndex != "" {
+		fmt.Fprintf(&b, ` AssertionConsumerServiceIndex="%s"`, reqAttr(acsIndex))
+	}
+	fmt.Fprintf(&b, `><saml:Issuer>%s</saml:Issuer></samlp:AuthnRequest>`, spEntityID)
+	return []byte(b.String())
+}
+
+// ssoRequest delivers the AuthnRequest to the IdP's sign-on endpoint in the POST or the redirect binding.
+func ssoRequest(via string, reqXML []byte, relay string) *http.Request {
+	if via == "redirect" {
+		var z bytes.Buffer
+		fw, _ := flate.NewWriter(&z, flate.DefaultCompression)
+		_, _ = fw.Write(reqXML)
+		_ = fw.Close()
+		q := "SAMLRequest=" + url.QueryEscape(base64.StdEncoding.EncodeToString(z.Bytes())) + "&RelayState=" + url.QueryEscape(relay)
+		return httptest.NewRequest("GET", "https://idp.example.org/sso?"+q, nil)
+	}
+	body := "SAMLRequest=" + url.QueryEscape(base64.StdEncoding.EncodeToString(reqXML)) + "&RelayState=" + url.QueryEscape(relay)
+	r := httptest.NewRequest("POST", "https://idp.example.org/sso", strings.NewReader(body))
+	r.Header.Set("Content-Type", "application/x-www-form-urlencoded")
+	return r
 }
 
 // leadDescriptors puts n descriptors that offer no POST sign-on endpoint in front of d.
@@ -536,17 +739,46 @@ func checkForm(c Case) pbt.Result {
 	if c.Form != "" {
 		classes = append(classes, c.Kind+":"+c.Form)
 	}
+	// idpflow: how the request selects the endpoint x what kind of location the in-code metadata registers
+	cross := ""
+	if c.Kind == "idpflow" {
+		loc := "acs:http"
+		if s := urlw.Scheme(c.URL); s == "" {
+			loc = "acs:no-scheme"
+		} else if s != "http" && s != "https" {
+			loc = "acs:foreign-scheme"
+		}
+		cross = "select:" + c.Select + "/" + loc
+		classes = append(classes, "select:"+c.Select, "via:"+c.Via, cross)
+		if c.Signed {
+			classes = append(classes, "idpflow:library-assertion-maker")
+		} else {
+			classes = append(classes, "idpflow:stub-assertion-maker")
+		}
+	}
 	p, pan := emit(c, c.URL, c.Relay, c.Content)
 	if pan != nil {
 		return fail(classes, "%s: emitting the page panics: %v", c.Kind, pan)
 	}
 	if p.err != nil {
 		// refusing to emit is always safe; not a structure change
+		if cross != "" {
+			classes = append(classes, cross+"/refused")
+		}
 		return pbt.Result{Classes: append(classes, "refused")}
 	}
 	// the same page with benign strings (same route, same emptiness of the toast)
-	bu := "https://benign.example/endpoint"
-	q, pan := emit(c, bu, "benignrelay", "benign")
+	bu := benignURL
+	bc := c
+	if c.Kind == "idpflow" {
+		// the form's skeleton does not depend on which endpoint is chosen: the baseline is the plainest
+		// flow (one POST endpoint, nothing named), same delivery and assertion maker
+		bc.Select, bc.ACS, bc.Target = "none", []ACSSpec{{Binding: saml.HTTPPostBinding, Index: 1, Default: 1}}, 0
+		if c.Select == "idp-initiated" {
+			bc.Select = c.Select
+		}
+	}
+	q, pan := emit(bc, bu, "benignrelay", "benign")
 	if pan != nil || q.err != nil {
 		return fail(classes, "harness: benign baseline fails: %v %v", pan, q.err)
 	}
@@ -591,15 +823,30 @@ func checkForm(c Case) pbt.Result {
 	}
 	// action: the given URL, its percent-normalised form, or html/template's inert sentinel
 	a := f.Action
-	switch {
-	case a == p.action:
-		classes = append(classes, "action:verbatim")
-	case a == "#ZgotmplZ":
-		classes = append(classes, "action:sentinel")
-	case urlw.UnescapeLenient(a, false) == urlw.UnescapeLenient(p.action, false):
-		classes = append(classes, "action:normalised")
-	default:
-		return fail(classes, "form action is %q for the URL %q: neither that URL, nor its percent-normalised form, nor the inert sentinel", a, p.action)
+	cands := p.actions
+	if cands == nil {
+		cands = []string{p.action}
+	}
+	outcome := ""
+	for _, cand := range cands {
+		switch {
+		case a == cand:
+			outcome = "action:verbatim"
+		case a == "#ZgotmplZ":
+			outcome = "action:sentinel"
+		case urlw.UnescapeLenient(a, false) == urlw.UnescapeLenient(cand, false):
+			outcome = "action:normalised"
+		}
+		if outcome != "" {
+			break
+		}
+	}
+	if outcome == "" {
+		return fail(classes, "form action is %q for the URL(s) %q: neither that URL, nor its percent-normalised form, nor the inert sentinel", a, cands)
+	}
+	classes = append(classes, outcome)
+	if cross != "" {
+		classes = append(classes, cross+"/"+outcome)
 	}
 	switch s := urlw.Scheme(a); s {
 	case "", "http", "https":
@@ -900,7 +1147,7 @@ func uniq(in []string) []string {
 
 func check(c Case) pbt.Result {
 	switch c.Kind {
-	case "spform", "mwpage", "idpform", "loginform":
+	case "spform", "mwpage", "idpform", "idpflow", "loginform":
 		return checkForm(c)
 	case "metadata":
 		return checkMetadata(c)
@@ -938,6 +1185,40 @@ func enumFormStrings(_ string, emit func(Case)) {
 			emit(c)
 			c.URL = tok + "https://idp.example.org/"
 			emit(c)
+		}
+	}
+}
+
+// enumIdpFlow: every listed hostile URL as the registered location of an in-code service provider x
+// every way of selecting the endpoint x both deliveries x the target alone / behind a benign decoy /
+// in front of a hostile default decoy.
+func enumIdpFlow(_ string, emit func(Case)) {
+	post := saml.HTTPPostBinding
+	layouts := []struct {
+		acs    []ACSSpec
+		target int
+	}{
+		{[]ACSSpec{{Binding: post, Index: 1, Default: 1}}, 0},
+		{[]ACSSpec{{Binding: post, Index: 0, Loc: "https://sp.example.com/decoy/0"}, {Binding: post, Index: 1, Default: 1}}, 1},
+		{[]ACSSpec{{Binding: post, Index: 2}, {Binding: saml.HTTPRedirectBinding, Index: 3, Loc: "javascript:alert(2)", Default: 2}}, 0},
+	}
+	for _, u := range hostileURLs {
+		for _, sel := range idpSelects {
+			for li, l := range layouts {
+				for _, via := range []string{"post", "redirect"} {
+					if sel == "idp-initiated" && via == "redirect" {
+						continue
+					}
+					emit(Case{Kind: "idpflow", URL: u, Relay: "rs", Content: "content", Select: sel, Via: via, Signed: li == 0 && via == "post" && len(u)%4 == 0, ACS: l.acs, Target: l.target})
+				}
+			}
+		}
+	}
+	for _, tok := range htmlHostile {
+		for _, sel := range idpSelects {
+			for _, u := range []string{"https://sp.example.com/" + tok, tok + "https://sp.example.com/", "javascript:" + tok} {
+				emit(Case{Kind: "idpflow", URL: u, Relay: "a" + tok, Content: "content", Select: sel, Via: "post", ACS: layouts[0].acs, Target: 0})
+			}
 		}
 	}
 }
@@ -1038,14 +1319,15 @@ func enumForeignTwins(_ string, emit func(Case)) {
 
 var prop = &pbt.Prop[Case]{
 	ID: "C14",
-	Rule: "cases: (forms) hostile strings - HTML/JS/template metacharacters, quotes, NUL and other controls, U+2028/2029, script-bearing and malformed URLs - in every interpolated slot (action URL, relay state, message content, login URL) of the SP AuthnRequest/LogoutRequest/LogoutResponse POST forms, the samlsp middleware POST page, the IdP response form and the samlidp login form (both routes); (metadata) generated documents with every endpoint-bearing element of every role descriptor x known / other-SAML / unknown / absent bindings x Location and ResponseLocation over scheme classes x attributes with the same local name (Location, ResponseLocation, Binding, index) in another namespace before / after the real ones, as EntityDescriptor and EntitiesDescriptor, through xml.Unmarshal, samlsp.ParseMetadata (+ the SP's POST form and redirect built from the result) and samlidp PUT /services (stored, registered and re-served copies). " +
-		"oracle: the DOM skeleton (x/net/html) of each page equals the skeleton of the same page made with benign strings; RelayState / payload / toast read back exactly (modulo the HTML parser's CR->LF and NUL->U+FFFD); the action is the given URL, its percent-normalised form or html/template's #ZgotmplZ and never has a scheme other than http/https/none (mailto: not judged); after a successful metadata parse every location under a standard binding is a literal http(s) URL without control characters, under an unknown binding is empty; a failed parse is always acceptable. " +
+	Rule: "cases: (forms) hostile strings - HTML/JS/template metacharacters, quotes, NUL and other controls, U+2028/2029, script-bearing and malformed URLs - in every interpolated slot (action URL, relay state, message content, login URL) of the SP AuthnRequest/LogoutRequest/LogoutResponse POST forms, the samlsp middleware POST page, the IdP response form and the samlidp login form (both routes); (idp flow) the IdP driven through ServeSSO (POST and redirect delivery) and ServeIDPInitiated with service-provider metadata built in code - 1-3 assertion consumer services, the target carrying a hostile location that never met the metadata parser, benign / hostile decoys - crossed with how the request selects the endpoint: by URL equal to the registered location / by index / index + URL / unmatched index + URL / not at all / IdP-initiated / URL naming no registered location; (metadata) generated documents with every endpoint-bearing element of every role descriptor x known / other-SAML / unknown / absent bindings x Location and ResponseLocation over scheme classes x attributes with the same local name (Location, ResponseLocation, Binding, index) in another namespace before / after the real ones, as EntityDescriptor and EntitiesDescriptor, through xml.Unmarshal, samlsp.ParseMetadata (+ the SP's POST form and redirect built from the result) and samlidp PUT /services (stored, registered and re-served copies). " +
+		"oracle: the DOM skeleton (x/net/html) of each page equals the skeleton of the same page made with benign strings; RelayState / payload / toast read back exactly (modulo the HTML parser's CR->LF and NUL->U+FFFD); the action is the given URL, its percent-normalised form or html/template's #ZgotmplZ and never has a scheme other than http/https/none (mailto: not judged); in the idp flow the action may only derive from the location the request named, or from any registered location when the choice is the IdP's, and a refusal is always acceptable; after a successful metadata parse every location under a standard binding is a literal http(s) URL without control characters, under an unknown binding is empty; a failed parse is always acceptable. " +
 		"non-trivial: forms - a slot string contains one of < > \" ' & {{ }} or a control / line-separator character; metadata - some location is not a plain http(s) URL or some binding is not a standard one. distinct: sha256 of the JSON case.",
 	Gen:   gen,
 	Check: check,
 	Reset: fix.Reset,
 	Enums: []pbt.Enum[Case]{
 		{Name: "listed-hostile-strings-x-slots-x-forms", Each: enumFormStrings},
+		{Name: "idp-endpoint-selection-x-hostile-registered-location", Each: enumIdpFlow},
 		{Name: "metadata-element-x-binding-x-scheme-grid", Each: enumMetadataGrid},
 		{Name: "foreign-namespace-attribute-twins", Each: enumForeignTwins},
 	},
@@ -1053,6 +1335,7 @@ var prop = &pbt.Prop[Case]{
 		"strings are valid UTF-8; message content of the SP / IdP forms is XML-1.0-representable (it is serialised into the message before encoding)",
 		"the login-form toast is only reachable with the library's own constant texts through the public API; both routes (no toast / 'Invalid username or password') are driven",
 		"the login URL slot is a url.URL in the configuration: the generated string is parsed (or used as a path when it does not parse) and its String() is the slot value",
+		"idp flow: the AuthnRequest is written by the harness (control characters as character references), so a named URL that is not XML-1.0-representable makes the request ill-formed and is refused; the assertion maker is the library's own (signed) in a quarter of the cases and a stub that sets ResponseEl otherwise",
 		"html/template lets mailto: URLs through as form actions; that class is counted, not judged (not script-bearing, property silent)",
 		"bindings defined by SAML 2.0 that the library does not list (PAOS, HTTP-POST-SimpleSign, URI) may be blanked or checked: either is accepted",
 		"AdditionalMetadataLocation, Organization URLs and errorURL are not endpoint locations and are not judged",
